@@ -19,6 +19,33 @@ EXPLANATION = (
 P = "util::metadata::side_metadata::global::SideMetadataSpec::"
 
 
+def check_side_atomics(ctx, F, rule):
+    """Sub-byte paths of the atomic side-metadata writers are single read-modify-write operations on the byte: a load
+    followed by a separate store can overwrite a concurrent update of a neighbouring field in the same byte."""
+    for nm, rmw_names in (("store_atomic", ("fetch_update",)), ("compare_exchange_atomic", ("compare_exchange",)), ("fetch_update_atomic", ("fetch_update",))):
+        f = F.fn(P + nm)
+        allf = fn_and_closures(F, f)
+        sub_rmw, sub_plain = [], []
+        for g in allf:
+            for c in live_calls(g):
+                on_sub = any(re.search(r"log_num_of_bits Lt 3", show(p.tree)) and p.val is True for p in guards(g, c.bb))
+                if not on_sub:
+                    continue
+                is_byte = bool(c.ga) and bool(re.search(r"(^u8$|Atomic<u8>|AtomicU8)", c.ga[0]))
+                if c.name in rmw_names and is_byte:
+                    sub_rmw.append(c)
+                elif c.name in ("store", "atomic_store") and c.q and "Address" in c.q and is_byte:
+                    sub_plain.append(c)
+        ctx.judge(len(sub_rmw) == 1 and not sub_plain, rule, "SideMetadataSpec::%s updates a sub-byte field with one atomic RMW on the byte" % nm,
+                  expected="exactly one %s on the metadata byte and no separate byte store" % "/".join(rmw_names), found="rmw=%d plain stores=%s" % (len(sub_rmw), [c.line for c in sub_plain]), where=where(f),
+                  key="%s|%s" % (rule, nm))
+        if nm == "compare_exchange_atomic" and len(sub_rmw) == 1:
+            c = sub_rmw[0]
+            exp = show(strip(c.fn.flow.arg_tree(c, 1)))
+            ctx.judge("atomic_load" in exp and "Not(" in exp and ("arg" in exp or "upvar(old_metadata)" in exp), rule, "side compare-exchange expects the loaded byte with the old field value spliced in",
+                      expected="cas((load & !mask) | (old << lshift), ..)", found=exp[:140], where=where(c.fn, c.line), key=rule + "|cas-operands")
+
+
 def is_extract(t):
     """((X & M) >> L)"""
     t = strip(t)
@@ -82,7 +109,8 @@ def run(ctx, F):
                             nw += 1
                             ctx.judge(is_merge(v) and any(s == ("arg", 2) for s in walk(v)), "C20.extract-before-convert", "%s: RMW closure keeps the neighbouring fields of the byte it was given" % short(f.q),
                                       expected="Some((old & !mask) | ..)", found=show(v)[:140], where=where(f), key="C20.extract-before-convert|rmw|%s" % f.q)
-    ctx.floor("C20.extract-before-convert", nw, 3, "byte write-back sites")
+    ctx.judge(nw >= 1, "C20.extract-before-convert", "byte write-back sites found", expected=">= 1", found=str(nw), key="C20.extract-before-convert|writeback-count")
+    check_side_atomics(ctx, F, "C20.rmw-atomic")
     okp = set(plain_sites) <= {P + "store"}
     ctx.judge(okp, "C20.extract-before-convert", "the only plain byte store is in the non-atomic store()", expected="atomic accessors use read-modify-write operations", found=str(sorted(set(plain_sites))),
               key="C20.extract-before-convert|plain-only-store")
